@@ -186,6 +186,10 @@ func (P *Program) applyLemmaConfig(fn *ssa.Function, cfg *RunCfg) {
 					cfg.unwindAssert[f[1]] = true
 				}
 			}
+		case "novariant":
+			for _, n := range f[1:] {
+				cfg.noVariant[n] = true
+			}
 		case "nostrict":
 			cfg.strict = false
 		case "summary":
